@@ -16,12 +16,31 @@ Extracted (fail closed on anything else):
   * same file: in which branch(es) `self._configure_weights(weights=weights, weights_from_file=weights_from_file)` is
     called, the `shape=` of the `np.full(...)` that expands a scalar weight in `fitness`, and whether target data and
     weights are restricted through `_target_indexers` (time component under 'readout_time') -> Model.Fitness.wconf.
+
+Every function is NORMALISED before it is read (translator/c11_norm.py; general rewrites, never a list of known texts), so
+that behaviour-preserving refactorings translate to the same table:
+  * calls of private helpers of the same class / module are inlined (statement calls with guard clauses lowered to
+    if/else; single-`return` helpers also inside conditions) — except the landmarks the extractors key on
+    (`_bounds`, `_length`, `_check_out_fit_ranges`; `_calculate_fitness`, `_get_simulated_data`, `_configure_weights`,
+    `_set_bound`, `_target_indexers`);
+  * single-assignment local aliases of attribute paths are substituted when nothing on the path is stored at or after
+    the alias (nor by a method the function calls); named intermediate results are followed (`_deref`);
+  * `if not c: A else: B` == `if c: B else: A`; early `return` == nested if/else; `x = a if c else b` == if/else;
+    `match` on literals == if/elif; a manual counter == `enumerate`; module-level literal constants are resolved;
+    docstrings, comments, annotations, logging statements, messages and local names are not read;
+  * the guard functions are read by a flow-sensitive walk (`_GuardWalk`): nests of `if` / `elif` / `else`, `and` / `or` /
+    `not` / chained comparisons (De Morgan over integer comparisons), local names for bounds and lengths; every row is put
+    in ONE canonical form (`_canon`: `a > b` == `not a <= b` == `b < a`; `!=` / `==` symmetric) and rows that can only
+    raise their ValueError are put in one fixed order (`_canon_order`: they commute);
+  * arguments may be positional or by keyword.
+Everything else still fails closed.
 """
 from __future__ import annotations
 
 import ast
 from pathlib import Path
 
+from . import c11_norm as norm
 from .common import HEADER, body_no_doc, fail, find_func, parse
 
 REL = "pyxel/calibration/util.py"
@@ -119,19 +138,22 @@ def _cond_default(node, attr: str, default_src: str, var: str) -> bool:
 
 def _helpers(tree) -> frozenset:
     """Which of the helpers `_bounds(data, size) -> (start or 0, stop or size)` and
-    `_length(data, size) -> stop - start` exist with exactly that meaning."""
+    `_length(data, size) -> stop - start` exist with exactly that meaning (parameter and local names are free)."""
     found = set()
     fns = {n.name: n for n in tree.body if isinstance(n, ast.FunctionDef)}
     fb = fns.get("_bounds")
     if fb is not None:
-        if [a.arg for a in fb.args.args] != ["data", "size"] or fb.args.defaults or fb.args.kwonlyargs:
+        if len(fb.args.args) != 2 or fb.args.defaults or fb.args.kwonlyargs or fb.args.vararg or fb.args.kwarg:
             fail(fb, "_bounds signature")
+        data, size = (a.arg for a in fb.args.args)
         vals = {}
-        body = body_no_doc(fb)
+        body = [st for st in body_no_doc(fb) if not norm.is_logging(st)]
         for st in body[:-1]:
-            if isinstance(st, ast.AnnAssign) and isinstance(st.target, ast.Name) and st.value is not None:
+            if isinstance(st, ast.AnnAssign) and isinstance(st.target, ast.Name) and st.value is not None \
+                    and st.target.id not in vals and st.target.id not in (data, size):
                 vals[st.target.id] = st.value
-            elif isinstance(st, ast.Assign) and len(st.targets) == 1 and isinstance(st.targets[0], ast.Name):
+            elif isinstance(st, ast.Assign) and len(st.targets) == 1 and isinstance(st.targets[0], ast.Name) \
+                    and st.targets[0].id not in vals and st.targets[0].id not in (data, size):
                 vals[st.targets[0].id] = st.value
             else:
                 fail(st, "_bounds: unsupported statement")
@@ -139,90 +161,330 @@ def _helpers(tree) -> frozenset:
         if not (isinstance(ret, ast.Return) and isinstance(ret.value, ast.Tuple) and len(ret.value.elts) == 2):
             fail(fb, "_bounds must return (start, stop)")
         r0, r1 = (vals.get(e.id, e) if isinstance(e, ast.Name) else e for e in ret.value.elts)
-        if not (_cond_default(r0, "start", "0", "data") and _cond_default(r1, "stop", "size", "data")):
+        if not (_cond_default(r0, "start", "0", data) and _cond_default(r1, "stop", size, data)):
             fail(fb, "_bounds must return (0 if data.start is None else data.start, size if data.stop is None else data.stop)")
         found.add("_bounds")
     fl = fns.get("_length")
     if fl is not None:
-        if "_bounds" not in found or [a.arg for a in fl.args.args] != ["data", "size"] or fl.args.defaults:
+        if "_bounds" not in found or len(fl.args.args) != 2 or fl.args.defaults or fl.args.kwonlyargs or fl.args.vararg \
+                or fl.args.kwarg:
             fail(fl, "_length signature")
-        body = body_no_doc(fl)
-        ok = (len(body) == 2 and isinstance(body[0], ast.Assign) and ast.unparse(body[0]) == "start, stop = _bounds(data, size)"
-              and isinstance(body[1], ast.Return) and body[1].value is not None and ast.unparse(body[1].value) == "stop - start")
+        data, size = (a.arg for a in fl.args.args)
+        body = [st for st in body_no_doc(fl) if not norm.is_logging(st)]
+        call = f"_bounds({data}, {size})"
+        ok = False
+        if len(body) == 2 and isinstance(body[0], ast.Assign) and len(body[0].targets) == 1 \
+                and isinstance(body[0].targets[0], ast.Tuple) and len(body[0].targets[0].elts) == 2 \
+                and all(isinstance(e, ast.Name) for e in body[0].targets[0].elts) and ast.unparse(body[0].value) == call \
+                and isinstance(body[1], ast.Return) and body[1].value is not None:
+            a, b = (e.id for e in body[0].targets[0].elts)
+            ok = a != b and ast.unparse(body[1].value) == f"{b} - {a}"
         ok = ok or (len(body) == 1 and isinstance(body[0], ast.Return) and body[0].value is not None
-                    and ast.unparse(body[0].value) == "_bounds(data, size)[1] - _bounds(data, size)[0]")
+                    and ast.unparse(body[0].value) == f"{call}[1] - {call}[0]")
         if not ok:
             fail(fl, "_length must return stop - start of _bounds(data, size)")
         found.add("_length")
     return frozenset(found)
 
 
-def _guards(fn: ast.FunctionDef, sides: dict, allow_pre: bool, helpers: frozenset = frozenset()) -> list[str]:
-    out = []
-    env: dict = {}
-    for st in body_no_doc(fn):
-        # <a>, <b> = _bounds(<range>.<dim>, <bound>)
-        if ("_bounds" in helpers and isinstance(st, ast.Assign) and len(st.targets) == 1
-                and isinstance(st.targets[0], ast.Tuple) and len(st.targets[0].elts) == 2
-                and all(isinstance(e, ast.Name) for e in st.targets[0].elts)):
-            h = _helper_call(st.value, "_bounds", sides)
-            a, b = (e.id for e in st.targets[0].elts)
-            if h is None or a in env or b in env or a in BOUNDS or b in BOUNDS or a in sides or b in sides:
-                fail(st, f"{fn.name}: unsupported assignment")
-            env[a] = f"(ERStart {h[0]} {h[1]} {h[2]})"
-            env[b] = f"(ERStop {h[0]} {h[1]} {h[2]})"
-            continue
-        if not (isinstance(st, ast.If) and not st.orelse and _raises_value_error(st.body)):
-            fail(st, f"{fn.name}: every statement must be `if <cond>: raise ValueError(...)`")
-        t = st.test
-        # if <bound> is None: raise
-        if (isinstance(t, ast.Compare) and len(t.ops) == 1 and isinstance(t.ops[0], ast.Is)
-                and isinstance(t.left, ast.Name) and t.left.id in BOUNDS
-                and isinstance(t.comparators[0], ast.Constant) and t.comparators[0].value is None):
-            out.append(f"GNone {BOUNDS[t.left.id]}")
-            continue
-        pre = "PAlways"
-        if isinstance(t, ast.BoolOp) and isinstance(t.op, ast.And):
-            if not (allow_pre and len(t.values) == 3 and _is_isinstance(t.values[0], "target_fit_range", "FitRange3D")
-                    and _is_isinstance(t.values[1], "out_fit_range", "FitRange3D")):
-                fail(t, "unsupported conjunction in a range guard")
-            pre, t = "PBoth3D", t.values[2]
-        for neg, a, op, b in _compare(t, sides, env, helpers):
-            out.append(f"GCmp {pre} {'true' if neg else 'false'} {a} {op} {b}")
-    if not out:
-        fail(fn, f"{fn.name}: no guard found")
-    return out
+# canonical form of one comparison that raises when it is TRUE (`neg` = raises when it is FALSE), over integers
+# (None operands make both forms raise the same TypeError): order comparisons are written `not (x <= y)` / `not (x < y)`,
+# (in)equalities `x != y` / `x == y`, so that `a > b`, `not a <= b`, `b < a` are one row
+def _canon(neg: bool, a: str, op: str, b: str) -> tuple[bool, str, str, str]:
+    if op in ("CEq", "CNe"):
+        if neg:
+            neg, op = False, ("CNe" if op == "CEq" else "CEq")
+        # symmetric: the operand that mentions the target range first
+        if ("Tgt" not in a and "Tgt" in b) or (("Tgt" in a) == ("Tgt" in b) and b < a):
+            a, b = b, a
+        return neg, a, op, b
+    if op in ("CGe", "CGt"):                  # a >= b  ==  b <= a
+        a, b, op = b, a, ("CLe" if op == "CGe" else "CLt")
+    if not neg:                               # a <= b  ==  not (b < a)
+        a, b, op, neg = b, a, ("CLt" if op == "CLe" else "CLe"), True
+    return neg, a, op, b
 
 
-def _kw_call(node, func_src: str, kws: dict) -> bool:
-    return (isinstance(node, ast.Expr) and isinstance(node.value, ast.Call) and ast.unparse(node.value.func) == func_src
-            and not node.value.args
-            and {k.arg: ast.unparse(k.value) for k in node.value.keywords} == kws)
+class _GuardWalk:
+    """A guard function (`FitRange2D.check`, `FitRange3D.check`, `_check_out_fit_ranges`) as the ordered list of
+    conditions under which it raises ValueError.  Accepted: local names bound once to the result of `_bounds` / `_length`
+    / a range end point / a difference (substituted); `if` / `elif` / `else` nests, guard clauses, `return`, `pass`,
+    `assert isinstance(...)`-free bodies; conditions built with `not`, `and`, `or`, chained comparisons, `isinstance(<range>,
+    FitRange3D)`, `<bound> is None`.  A raise condition must be a disjunction of `[both ranges are 3D and] <comparison>`
+    (the shape of a table row); everything else fails closed."""
+
+    def __init__(self, fn, sides, allow_pre, helpers):
+        self.fn, self.sides, self.allow_pre, self.helpers = fn, sides, allow_pre, helpers
+        self.env: dict = {}          # local name -> (Gallina expr, may raise?, number of guards emitted when bound, path)
+        self.fenv: dict = {}         # local name -> formula made of `isinstance(<range>, FitRange3D)` facts only
+        self.out: list[str] = []
+
+    # -- conditions -> formula: ('lit', neg, node) | ('isinst', side) | ('none', bound) | ('and'|'or', [..]) | ('not', f)
+    def formula(self, t):
+        if isinstance(t, ast.Name) and t.id in self.fenv:
+            return self.fenv[t.id]
+        if isinstance(t, ast.UnaryOp) and isinstance(t.op, ast.Not):
+            return ("not", self.formula(t.operand))
+        if isinstance(t, ast.BoolOp):
+            return ("and" if isinstance(t.op, ast.And) else "or", [self.formula(v) for v in t.values])
+        for var in ("target_fit_range", "out_fit_range"):
+            if _is_isinstance(t, var, "FitRange3D") and var in self.sides:
+                return ("isinst", var)
+        if isinstance(t, ast.Compare) and len(t.ops) == 1 and isinstance(t.ops[0], (ast.Is, ast.IsNot)) \
+                and isinstance(t.left, ast.Name) and t.left.id in BOUNDS and t.left.id not in self.env \
+                and isinstance(t.comparators[0], ast.Constant) and t.comparators[0].value is None:
+            f = ("none", BOUNDS[t.left.id])
+            return f if isinstance(t.ops[0], ast.Is) else ("not", f)
+        if isinstance(t, ast.Compare) and all(type(o) in OPS for o in t.ops):
+            terms = [t.left, *t.comparators]
+            links = [("lit", x, OPS[type(op)], y) for x, op, y in zip(terms, t.ops, terms[1:])]
+            return links[0] if len(links) == 1 else ("and", links)
+        fail(t, f"{self.fn.name}: unsupported condition in a range guard")
+
+    def nnf(self, f, neg=False):
+        k = f[0]
+        if k == "not":
+            return self.nnf(f[1], not neg)
+        if k in ("and", "or"):
+            kk = k if not neg else ("or" if k == "and" else "and")
+            parts = []
+            for x in f[1]:
+                y = self.nnf(x, neg)
+                parts += y[1] if y[0] == kk else [y]          # flatten
+            return (kk, parts)
+        return ("atom", neg, f)
+
+    def rows(self, f, pre: list, node) -> list[tuple[list, tuple]]:
+        """negation normal form -> [(isinstance facts, literal)] in evaluation order"""
+        if f[0] == "or":
+            return [r for x in f[1] for r in self.rows(x, pre, node)]
+        if f[0] == "and":
+            facts, rest = list(pre), []
+            for x in f[1]:
+                if x[0] == "atom" and x[2][0] == "isinst" and not x[1] and not rest:
+                    facts.append(x[2][1])
+                else:
+                    rest.append(x)
+            if len(rest) != 1:
+                fail(node, f"{self.fn.name}: a conjunction of comparisons is not the shape of a guard row")
+            return self.rows(rest[0], facts, node)
+        _, neg, a = f
+        if a[0] == "isinst":
+            fail(node, f"{self.fn.name}: unsupported use of isinstance in a range guard")
+        return [(list(pre), (neg, a))]
+
+    def pre_of(self, facts, node) -> str:
+        s = set(facts)
+        if not s:
+            return "PAlways"
+        if self.allow_pre and s == {"target_fit_range", "out_fit_range"}:
+            return "PBoth3D"
+        fail(node, f"{self.fn.name}: a guard that depends on the kind of one range only is not the shape of a guard row")
+
+    def operand(self, node, facts, stmt) -> str:
+        if isinstance(node, ast.Name) and node.id in self.env:
+            if self.env[node.id] is None:
+                fail(stmt, f"{self.fn.name}: {node.id!r} was bound inside a conditional block that has ended")
+            ex, may_raise, n_emitted, path = self.env[node.id]
+            if may_raise and (set(path) != set(facts) or n_emitted != self.n_at_stmt):
+                fail(stmt, f"{self.fn.name}: {node.id!r} is computed under other conditions than the comparison that uses it")
+            return ex
+        return _expr(node, self.sides, self.plain_env(stmt), self.helpers)
+
+    def plain_env(self, stmt):
+        return {k: v[0] for k, v in self.env.items() if v is not None}
+
+    def scoped(self, stmts, path) -> bool:
+        """walk a conditional block: what it binds is not visible afterwards"""
+        before = dict(self.env)
+        r = self.walk(stmts, path)
+        for k, v in list(self.env.items()):
+            if before.get(k) is not v:
+                self.env[k] = None
+        for k, v in before.items():
+            if self.env.get(k) is not None and self.env[k] is not v:
+                self.env[k] = None
+        return r
+
+    def emit(self, cond_rows, stmt):
+        for facts, (neg, a) in cond_rows:
+            if a[0] == "none":
+                if neg or facts:
+                    fail(stmt, f"{self.fn.name}: unsupported guard on an absent size")
+                self.out.append(f"GNone {a[1]}")
+                continue
+            _, x, op, y = a
+            pre = self.pre_of(facts, stmt)
+            # a raise on a TRUE comparison is `neg = false`; under `not` the row raises when the comparison is FALSE
+            n, ea, o, eb = _canon(neg, self.operand(x, facts, stmt), op, self.operand(y, facts, stmt))
+            self.out.append(f"GCmp {pre} {'true' if n else 'false'} {ea} {o} {eb}")
+
+    # -- statements
+    def bind(self, st, path):
+        tg = st.targets[0] if isinstance(st, ast.Assign) else st.target
+        val = st.value
+        env0 = self.plain_env(st)
+        # a flag: `both_3d = isinstance(t, FitRange3D) and isinstance(o, FitRange3D)` (cannot raise, bound once, top level)
+        if isinstance(tg, ast.Name) and (isinstance(val, ast.BoolOp) or (isinstance(val, ast.Call) and ast.unparse(val.func) == "isinstance")):
+            f = self.formula(val)
+
+            def only_isinst(x):
+                return x[0] == "isinst" or (x[0] == "and" and all(only_isinst(y) for y in x[1]))
+            if not only_isinst(f) or path or tg.id in self.fenv or tg.id in self.env or tg.id in BOUNDS or tg.id in self.sides:
+                fail(st, f"{self.fn.name}: unsupported flag")
+            self.fenv[tg.id] = f
+            return
+
+        def new(name, ex, src):
+            if name in BOUNDS or name in self.sides:
+                fail(st, f"{self.fn.name}: the parameter {name!r} is rebound")
+            # `<range>.time` exists on 3D ranges only: the range must be known to be 3D where it is read
+            for var, side in self.sides.items():
+                if f"{side} DTime" in ex and not (var in path or (var == "self" and self.fn_is_3d)):
+                    fail(st, f"{self.fn.name}: the time component is read without knowing that the range has one")
+            # `_length(<range>.time, readout_times)` raises TypeError when both the stop and readout_times are absent: the
+            # model raises it where the value is compared, so nothing may be decided between the two places
+            may = "ESub" in ex and "BTimes" in ex
+            self.env[name] = (ex, may, len(self.out), list(path))
+        if isinstance(tg, ast.Tuple) and len(tg.elts) == 2 and all(isinstance(e, ast.Name) for e in tg.elts) \
+                and "_bounds" in self.helpers:
+            h = _helper_call(val, "_bounds", self.sides)
+            if h is None:
+                fail(st, f"{self.fn.name}: unsupported assignment")
+            new(tg.elts[0].id, f"(ERStart {h[0]} {h[1]} {h[2]})", val)
+            new(tg.elts[1].id, f"(ERStop {h[0]} {h[1]} {h[2]})", val)
+            return
+        if isinstance(tg, ast.Name):
+            new(tg.id, _expr(val, self.sides, env0, self.helpers), val)
+            return
+        fail(st, f"{self.fn.name}: unsupported assignment")
+
+    def walk(self, stmts, path: list) -> bool:
+        """-> does the block always leave the function?  `path`: isinstance facts known to hold"""
+        for i, st in enumerate(stmts):
+            self.n_at_stmt = len(self.out)
+            if isinstance(st, ast.Pass) or (isinstance(st, ast.Expr) and isinstance(st.value, ast.Constant)) or norm.is_logging(st):
+                continue
+            if isinstance(st, (ast.Assign, ast.AnnAssign)) and getattr(st, "value", None) is not None \
+                    and (isinstance(st, ast.AnnAssign) or len(st.targets) == 1):
+                self.bind(st, path)
+                continue
+            if isinstance(st, ast.Return) and st.value is None:
+                return True
+            if isinstance(st, ast.Raise):
+                if not _raises_value_error([st]):
+                    fail(st, f"{self.fn.name}: only ValueError may be raised")
+                if path:
+                    fail(st, f"{self.fn.name}: unconditional raise for one kind of range")
+                fail(st, f"{self.fn.name}: unconditional raise")
+            if not isinstance(st, ast.If):
+                fail(st, f"{self.fn.name}: every statement must be a guard `if <cond>: raise ValueError(...)`, an assignment of "
+                         "a range bound / length, or a nest of them")
+            f = self.formula(st.test)
+            body_raises = bool(st.body) and isinstance(st.body[0], ast.Raise)
+            else_raises = bool(st.orelse) and isinstance(st.orelse[0], ast.Raise)
+            if body_raises or else_raises:
+                blk = st.body if body_raises else st.orelse
+                if not _raises_value_error(blk[:1]):
+                    fail(st, f"{self.fn.name}: only ValueError may be raised")
+                self.emit(self.rows(self.nnf(f, neg=not body_raises), list(path), st), st)
+                other = st.orelse if body_raises else st.body
+                # the raising branch is covered by the rows just emitted: the other branch and what follows run when
+                # none of them fired, which is what "later rows" means
+                if self.scoped(other, path) if other else False:
+                    return True
+                continue
+            # no immediate raise: only `isinstance` facts may select a sub-block
+            pos = self.nnf(f)
+            facts = [pos] if pos[0] == "atom" else (pos[1] if pos[0] == "and" else None)
+            if facts is None or not all(x[0] == "atom" and x[2][0] == "isinst" and not x[1] for x in facts):
+                fail(st, f"{self.fn.name}: a block of guards may only depend on the ranges being 3D")
+            if st.orelse:
+                fail(st, f"{self.fn.name}: `else` of a block of guards")
+            if self.scoped(st.body, path + [x[2][1] for x in facts]):
+                fail(st, f"{self.fn.name}: a conditional block leaves the function")
+        return False
+
+    def run(self, fn_is_3d: bool) -> list[str]:
+        self.fn_is_3d = fn_is_3d
+        self.n_at_stmt = 0
+        self.walk(body_no_doc(self.fn), [])
+        if not self.out:
+            fail(self.fn, f"{self.fn.name}: no guard found")
+        return self.out
+
+
+def _guards(fn: ast.FunctionDef, sides: dict, allow_pre: bool, helpers: frozenset = frozenset(), is_3d: bool = False) -> list[str]:
+    return _GuardWalk(fn, sides, allow_pre, helpers).run(is_3d)
+
+
+def _bound_args(call: ast.Call, params: list[str]) -> dict | None:
+    """keyword view of a call: positional arguments are named after the callee's parameters"""
+    if len(call.args) > len(params) or any(isinstance(a, ast.Starred) for a in call.args):
+        return None
+    got = {p_: ast.unparse(a) for p_, a in zip(params, call.args)}
+    for k in call.keywords:
+        if k.arg is None or k.arg in got:
+            return None
+        got[k.arg] = ast.unparse(k.value)
+    return got
+
+
+def _kw_call(node, func_src: str, kws: dict, params: list[str] | None = None) -> bool:
+    if not (isinstance(node, ast.Expr) and isinstance(node.value, ast.Call) and ast.unparse(node.value.func) == func_src):
+        return False
+    return _bound_args(node.value, params if params is not None else []) == kws
+
+
+CHECK_PARAMS = ["target_fit_range", "out_fit_range", "rows", "cols", "readout_times"]
 
 
 def _check_dispatch(fn: ast.FunctionDef) -> bool:
-    """-> target_first: is the target range validated before the two ranges are compared?"""
-    if [a.arg for a in fn.args.args] != ["target_fit_range", "out_fit_range", "rows", "cols", "readout_times"]:
+    """-> target_first: is the target range validated before the two ranges are compared?
+    Accepted: `if not target_fit_range: return` as a guard clause or as the enclosing `if target_fit_range:` block
+    (`is None` / `is not None` likewise); then, in either order, `if out_fit_range: _check_out_fit_ranges(...)` and the
+    2D/3D dispatch `if isinstance(target_fit_range, FitRange2D): .check(rows, cols) else: .check(rows, cols, readout_times)`
+    (or the mirrored test on FitRange3D); arguments positional or by keyword; logging statements ignored."""
+    if [a.arg for a in fn.args.args] != CHECK_PARAMS:
         fail(fn, "check_fit_ranges signature")
-    b = body_no_doc(fn)
-    if len(b) != 3 or not all(isinstance(s, ast.If) for s in b):
-        fail(fn, "check_fit_ranges body must be three if statements")
-    s0 = b[0]
-    if not (ast.unparse(s0.test) == "not target_fit_range" and len(s0.body) == 1 and isinstance(s0.body[0], ast.Return)
-            and s0.body[0].value is None and not s0.orelse):
-        fail(s0, "expected `if not target_fit_range: return`")
-    target_first = ast.unparse(b[2].test) == "out_fit_range"
-    s1, s2 = (b[2], b[1]) if target_first else (b[1], b[2])
+    import copy as _copy
+    f = _copy.deepcopy(fn)
+    f.body = [st for st in body_no_doc(f) if not norm.is_logging(st)] or [ast.Pass()]
+    f = norm.swap_negated_ifs(norm.lower_returns(f))
+    b = [st for st in f.body if not isinstance(st, ast.Pass)]
+    present = ("target_fit_range", "target_fit_range is not None")
+    if len(b) == 1 and isinstance(b[0], ast.If) and ast.unparse(b[0].test) in present \
+            and all(isinstance(x, ast.Pass) for x in b[0].orelse):
+        b = [st for st in b[0].body if not isinstance(st, ast.Pass)]
+    elif len(b) == 1 and isinstance(b[0], ast.If) and ast.unparse(b[0].test) == "target_fit_range is None" \
+            and all(isinstance(x, ast.Pass) for x in b[0].body):
+        b = [st for st in b[0].orelse if not isinstance(st, ast.Pass)]
+    else:
+        fail(fn, "expected `if not target_fit_range: return` in front of the checks")
+    b = [st for st in b if not norm.is_logging(st)]
+    if len(b) != 2 or not all(isinstance(x, ast.If) for x in b):
+        fail(fn, "check_fit_ranges must consist of the target check and the comparison of the two ranges")
+    target_first = ast.unparse(b[1].test) in ("out_fit_range", "out_fit_range is not None")
+    s1, s2 = (b[1], b[0]) if target_first else (b[0], b[1])
     same = {"target_fit_range": "target_fit_range", "out_fit_range": "out_fit_range"}
     sized = dict(same, rows="rows", cols="cols", readout_times="readout_times")
-    if not (ast.unparse(s1.test) == "out_fit_range" and len(s1.body) == 1 and not s1.orelse
-            and (_kw_call(s1.body[0], "_check_out_fit_ranges", same) or _kw_call(s1.body[0], "_check_out_fit_ranges", sized))):
+    if not (ast.unparse(s1.test) in ("out_fit_range", "out_fit_range is not None") and len(s1.body) == 1 and not s1.orelse
+            and (_kw_call(s1.body[0], "_check_out_fit_ranges", same, CHECK_PARAMS)
+                 or _kw_call(s1.body[0], "_check_out_fit_ranges", sized, CHECK_PARAMS))):
         fail(s1, "expected `if out_fit_range: _check_out_fit_ranges(target_fit_range=..., out_fit_range=...[, rows=rows, "
                  "cols=cols, readout_times=readout_times])`")
-    if not (_is_isinstance(s2.test, "target_fit_range", "FitRange2D") and len(s2.body) == 1 and len(s2.orelse) == 1
-            and _kw_call(s2.body[0], "target_fit_range.check", {"rows": "rows", "cols": "cols"})
-            and _kw_call(s2.orelse[0], "target_fit_range.check",
-                         {"rows": "rows", "cols": "cols", "readout_times": "readout_times"})):
+    two = {"rows": "rows", "cols": "cols"}
+    three = dict(two, readout_times="readout_times")
+    pr = ["rows", "cols", "readout_times"]
+    if len(s2.body) != 1 or len(s2.orelse) != 1:
+        fail(s2, "expected the 2D/3D dispatch to target_fit_range.check(...)")
+    if _is_isinstance(s2.test, "target_fit_range", "FitRange2D"):
+        b2, b3 = s2.body[0], s2.orelse[0]
+    elif _is_isinstance(s2.test, "target_fit_range", "FitRange3D"):
+        b3, b2 = s2.body[0], s2.orelse[0]
+    else:
+        fail(s2, "expected the 2D/3D dispatch to target_fit_range.check(...)")
+    if not (_kw_call(b2, "target_fit_range.check", two, pr) and _kw_call(b3, "target_fit_range.check", three, pr)):
         fail(s2, "expected the 2D/3D dispatch to target_fit_range.check(...)")
     return target_first
 
@@ -400,9 +662,11 @@ def _call_sites(tree) -> tuple[str, str]:
         call = calls[0]
         if not any(isinstance(st, ast.Expr) and st.value is call for st in stmts):
             fail(call, "check_fit_ranges must be called unconditionally as a statement of the branch")
-        if call.args:
-            fail(call, "check_fit_ranges must be called with keyword arguments")
-        kw = {k.arg: k.value for k in call.keywords}
+        if len(call.args) > len(CHECK_PARAMS) or any(isinstance(a, ast.Starred) for a in call.args) \
+                or any(k.arg in CHECK_PARAMS[:len(call.args)] for k in call.keywords):
+            fail(call, "unsupported arguments in the call of check_fit_ranges")
+        kw = dict(zip(CHECK_PARAMS, call.args))
+        kw.update({k.arg: k.value for k in call.keywords})
         if None in kw or not {"target_fit_range", "out_fit_range", "rows", "cols"} <= set(kw) \
                 or not set(kw) <= {"target_fit_range", "out_fit_range", "rows", "cols", "readout_times"}:
             fail(call, "unexpected keywords in the call of check_fit_ranges")
@@ -427,8 +691,34 @@ def _call_sites(tree) -> tuple[str, str]:
 
 # ------------------------------------------------------------------------------------------ weights
 
+def _deref(node, fn, depth=0):
+    """a Name bound exactly once in `fn` (plain assignment, never stored into / updated in place) -> the expression it
+    names (named intermediate results); anything else is returned unchanged"""
+    while isinstance(node, ast.Name) and depth < 4:
+        vals = _assignments(fn.body).get(node.id, [])
+        params = {a.arg for a in fn.args.args + fn.args.kwonlyargs}
+        touched = any(isinstance(n, (ast.Subscript, ast.Attribute)) and isinstance(n.ctx, (ast.Store, ast.Del))
+                      and isinstance(n.value, ast.Name) and n.value.id == node.id for n in ast.walk(fn))
+        touched = touched or any(isinstance(n, ast.AugAssign) and isinstance(n.target, ast.Name) and n.target.id == node.id
+                                 for n in ast.walk(fn))
+        loopvar = any(isinstance(n, (ast.For, ast.comprehension)) and any(isinstance(e, ast.Name) and e.id == node.id
+                                                                        for e in ast.walk(n.target)) for n in ast.walk(fn))
+        if len(vals) != 1 or vals[0][1] is not None or node.id in params or touched or loopvar \
+                or isinstance(vals[0][0], (ast.Dict, ast.List, ast.Set)):
+            return node
+        node, depth = vals[0][0], depth + 1
+    return node
+
+
 def _is_cfg_weights(st) -> bool:
-    return _kw_call(st, "self._configure_weights", {"weights": "weights", "weights_from_file": "weights_from_file"})
+    if not (isinstance(st, ast.Expr) and isinstance(st.value, ast.Call) and ast.unparse(st.value.func) == "self._configure_weights"):
+        return False
+    c = st.value
+    got = dict(zip(("weights", "weights_from_file"), (ast.unparse(a) for a in c.args)))
+    if len(c.args) > 2 or any(k.arg is None or k.arg in got for k in c.keywords):
+        return False
+    got.update({k.arg: ast.unparse(k.value) for k in c.keywords})
+    return got == {"weights": "weights", "weights_from_file": "weights_from_file"}
 
 
 def _weights_conf(tree) -> str:
@@ -469,12 +759,27 @@ def _weights_conf(tree) -> str:
     args = list(fulls[0].args)
     shape = kw.get("shape", args[0] if args else None)
     fill = kw.get("fill_value", args[1] if len(args) > 1 else None)
-    if shape is None or fill is None or ast.unparse(fill) != "self.weighting[processor_id]":
+    shape, fill = (None if x is None else _deref(x, ff) for x in (shape, fill))
+    # the index of the pair: the loop's counter
+    loops = [n for n in ast.walk(ff) if isinstance(n, ast.For)]
+    idx = None
+    if len(loops) == 1 and isinstance(loops[0].target, ast.Tuple) and isinstance(loops[0].target.elts[0], ast.Name) \
+            and ast.unparse(loops[0].iter.func if isinstance(loops[0].iter, ast.Call) else loops[0].iter) == "enumerate":
+        idx = loops[0].target.elts[0].id
+    if shape is None or fill is None or idx is None or ast.unparse(fill) != f"self.weighting[{idx}]":
         fail(fulls[0], "np.full(shape=..., fill_value=self.weighting[processor_id]) expected")
     src = ast.unparse(shape)
     geo = ("processor.detector.geometry.row", "processor.detector.geometry.col")
+    # the loop's target variable / the restricted result of this pair
+    tname = loops[0].target.elts[1].elts[1].id if isinstance(loops[0].target.elts[1], ast.Tuple) \
+        and len(loops[0].target.elts[1].elts) == 2 and isinstance(loops[0].target.elts[1].elts[1], ast.Name) else None
+    sims = [n.targets[0].id if isinstance(n, ast.Assign) else n.target.id for n in ast.walk(ff)
+            if isinstance(n, (ast.Assign, ast.AnnAssign)) and n.value is not None and isinstance(n.value, ast.Call)
+            and ast.unparse(n.value.func) == "self._get_simulated_data"
+            and isinstance(n.targets[0] if isinstance(n, ast.Assign) else n.target, ast.Name)]
+    names = [x for x in [tname] + sims if x]
     # (the restricted result has the target's shape up to a leading axis of length 1 whenever a fitness is computed)
-    if src in ("target_data.shape", "np.shape(target_data)", "tuple(target_data.shape)", "simulated_data.shape"):
+    if any(src in (f"{x}.shape", f"np.shape({x})", f"tuple({x}.shape)") for x in names):
         sh = "ShTarget"
     elif isinstance(shape, ast.Tuple) and tuple(ast.unparse(e) for e in shape.elts) == geo:
         sh = "ShDetector"
@@ -489,11 +794,13 @@ def _time_key(tree) -> bool:
     """Are the target data and the weights read from file restricted with the target range's time component under
     their own dimension name 'readout_time'?  `X.isel(indexers=<range>.to_dict())` -> False;
     `X.isel(indexers=_target_indexers(<range>))` with `_target_indexers` renaming 'time' to 'readout_time' -> True."""
-    def indexer_kind(call, rng_src):
+    def indexer_kind(call, rng_src, fn):
         kw = {k.arg: k.value for k in call.keywords}
-        if call.args or set(kw) != {"indexers"}:
+        if len(call.args) == 1 and not kw:
+            kw = {"indexers": call.args[0]}
+        if call.args and "indexers" not in kw or set(kw) != {"indexers"}:
             fail(call, "isel(indexers=...) expected")
-        src = ast.unparse(kw["indexers"])
+        src = ast.unparse(_deref(kw["indexers"], fn))
         if src == f"{rng_src}.to_dict()":
             return False
         if src == f"_target_indexers({rng_src})":
@@ -518,16 +825,18 @@ def _time_key(tree) -> bool:
     init = find_func(tree, "__init__", cls="ModelFittingDataTree")
     tsel = [n.value for n in ast.walk(init) if isinstance(n, ast.Assign) and len(n.targets) == 1
             and ast.unparse(n.targets[0]) == "self.all_target_data" and isinstance(n.value, ast.Call)
-            and ast.unparse(n.value.func) == "targets.isel"]
+            and isinstance(n.value.func, ast.Attribute) and n.value.func.attr == "isel"
+            and isinstance(n.value.func.value, ast.Name)]
     if len(tsel) != 1:
         fail(init, "expected one `self.all_target_data = targets.isel(indexers=...)`")
     cw = find_func(tree, "_configure_weights", cls="ModelFittingDataTree")
     wsel = [n.value for n in ast.walk(cw) if isinstance(n, ast.Assign) and len(n.targets) == 1
             and ast.unparse(n.targets[0]) == "self.weighting_from_file" and isinstance(n.value, ast.Call)
-            and ast.unparse(n.value.func) == "weights_data_array.isel"]
+            and isinstance(n.value.func, ast.Attribute) and n.value.func.attr == "isel"
+            and isinstance(n.value.func.value, ast.Name)]
     if len(wsel) != 1:
         fail(cw, "expected one `self.weighting_from_file = weights_data_array.isel(indexers=...)`")
-    kt, kw_ = indexer_kind(tsel[0], "target_fit_range"), indexer_kind(wsel[0], "self.targ_fit_range")
+    kt, kw_ = indexer_kind(tsel[0], "target_fit_range", init), indexer_kind(wsel[0], "self.targ_fit_range", cw)
     if (kt or kw_) and fi is None:
         fail(init, "_target_indexers is not defined")
     if kt != kw_:
@@ -1008,7 +1317,130 @@ CALL_SINGLE = "{| cs_rows := (QTgt DRow); cs_cols := (QTgt DCol); cs_times := QA
 CALL_MULTI = "{| cs_rows := (QTgt DRow); cs_cols := (QTgt DCol); cs_times := (QTgt DTime) |}"
 
 
+# ------------------------------------------------------------------------------------------ normalisation
+
+# names the extractors key on (never inlined): the semantic helpers of util.py, the guard functions themselves, and
+# the methods of the problem whose calls are the landmarks of `__init__` / `fitness`
+UTIL_KEEP = {"_bounds", "_length", "_check_out_fit_ranges", "_check_out_ranges"}
+FIT_KEEP = {"_calculate_fitness", "_get_simulated_data", "_configure_weights", "_set_bound", "_target_indexers"}
+
+
+def _resolver(tree, cls: ast.ClassDef | None, keep: set):
+    funcs = {n.name: n for n in tree.body if isinstance(n, ast.FunctionDef)}
+    methods = {n.name: n for n in cls.body if isinstance(n, ast.FunctionDef)} if cls is not None else {}
+
+    def resolve(call):
+        f = call.func
+        if isinstance(f, ast.Name) and f.id.startswith("_") and not f.id.startswith("__") and f.id in funcs and f.id not in keep:
+            return funcs[f.id], False
+        if isinstance(f, ast.Attribute) and isinstance(f.value, ast.Name) and f.value.id == "self" \
+                and f.attr.startswith("_") and not f.attr.startswith("__") and f.attr in methods and f.attr not in keep:
+            m = methods[f.attr]
+            if any(ast.unparse(d) in ("staticmethod", "classmethod", "property") for d in m.decorator_list):
+                return None
+            return m, True
+        return None
+    return resolve
+
+
+def _class(tree, name):
+    return next((n for n in ast.walk(tree) if isinstance(n, ast.ClassDef) and n.name == name), None)
+
+
+def _canon_order(rows: list[str]) -> list[str]:
+    """Guards that cannot raise anything but their ValueError commute (each is a pure test; the function rejects iff one
+    of them fires; which message is shown is not a property-relevant observable): runs of such rows are put in one fixed
+    order — rows, columns, `readout_times is None`, times; within a dimension `0 <= start`, `start <= stop`, `stop <= size`,
+    then the rest by text.  A row that may raise TypeError / AttributeError (raw end points that may be None, the time
+    component before `readout_times is None` was ruled out, anything under `PBoth3D`) stays where it is and separates
+    the runs."""
+    import re
+
+    def total(g, none_seen):
+        if g.startswith("GNone"):
+            return True
+        if "PBoth3D" in g or "EStart" in g.replace("ERStart", "") or "EStop" in g.replace("ERStop", ""):
+            return False
+        if "DTime" in g or "BTimes" in g:
+            return none_seen
+        return True
+
+    def key(g):
+        if g.startswith("GNone"):
+            return (2, 0, g)
+        dim = 3 if ("DTime" in g or "BTimes" in g) else (0 if "DRow" in g else 1 if "DCol" in g else 4)
+        shape = re.sub(r"D(Row|Col|Time)|B(Rows|Cols|Times)", "_", g)
+        order = ["GCmp PAlways true (EConst 0) CLe (ERStart Tgt _ _)",
+                 "GCmp PAlways true (ERStart Tgt _ _) CLe (ERStop Tgt _ _)",
+                 "GCmp PAlways true (ERStop Tgt _ _) CLe (EBound _)"]
+        return (dim, order.index(shape) if shape in order else 9, g)
+    out, run, none_seen = [], [], False
+    for g in rows:
+        if total(g, none_seen):
+            run.append(g)
+        else:
+            out += sorted(run, key=key) + [g]
+            run = []
+        none_seen = none_seen or g == "GNone BTimes"
+    return out + sorted(run, key=key)
+
+
+def _norm_guard_fn(tree, fn, cls_name=None):
+    resolve = _resolver(tree, _class(tree, cls_name) if cls_name else None, UTIL_KEEP)
+    fn = norm.match_to_if(norm.Inliner(resolve).function(fn))
+    fn = norm.inline_expr_calls(fn, resolve)
+    return norm.renumber(norm.resolve_constants(fn, norm.module_constants(tree)))
+
+
+def _norm_fit_tree(tree):
+    """a copy of fitting_datatree.py's module in which `__init__`, `fitness` and `_configure_weights` of the problem class
+    are normalised (private helpers inlined, aliases substituted, negated tests swapped, module constants resolved)"""
+    tree = ast.parse(ast.unparse(tree))
+    cls = _class(tree, CLS)
+    if cls is None:
+        fail(tree, f"class {CLS} not found")
+    consts = norm.module_constants(tree)
+    methods = {n.name: n for n in cls.body if isinstance(n, ast.FunctionDef)}
+    resolve = _resolver(tree, cls, FIT_KEEP)
+
+    def writes_of_callees(fn, seen=None):
+        seen = set() if seen is None else seen
+        out = set()
+        for n in ast.walk(fn):
+            if isinstance(n, ast.Call) and _self_attr(n.func) in methods and _self_attr(n.func) not in seen:
+                seen.add(_self_attr(n.func))
+                m = methods[_self_attr(n.func)]
+                out |= norm.self_writes(m) | writes_of_callees(m, seen)
+        return out
+    for i, st in enumerate(cls.body):
+        if isinstance(st, ast.FunctionDef) and st.name in ("__init__", "fitness", "_configure_weights"):
+            fn = norm.Inliner(resolve).function(st)
+            fn = norm.inline_expr_calls(fn, resolve)
+            fn = norm.match_to_if(fn)
+            if st.name == "fitness":
+                fn = norm.counter_to_enumerate(norm.ifexp_assign(fn))
+            else:
+                fn = norm.lower_returns(fn)
+            fn = norm.swap_negated_ifs(fn)
+            fn = norm.subst_aliases(fn, writes_of_callees(fn))
+            fn = norm.resolve_constants(fn, consts)
+            cls.body[i] = fn
+    return ast.parse(ast.unparse(ast.fix_missing_locations(tree)))
+
+
 def translate(repo: Path) -> str:
+    from harness.core import TranslationError
+    try:
+        return _translate(repo)
+    except TranslationError:
+        raise
+    except RecursionError as ex:
+        raise TranslationError(f"translator: recursion limit ({ex})") from ex
+    except Exception as ex:            # an unexpected shape inside a normalisation: fail closed, never crash the check
+        raise TranslationError(f"translator: {type(ex).__name__}: {ex}") from ex
+
+
+def _translate(repo: Path) -> str:
     tree = parse(repo, REL)
     helpers = _helpers(tree)
     target_first = _check_dispatch(find_func(tree, "check_fit_ranges"))
@@ -1017,7 +1449,7 @@ def translate(repo: Path) -> str:
     if params not in (["target_fit_range", "out_fit_range"],
                       ["target_fit_range", "out_fit_range", "rows", "cols", "readout_times"]):
         fail(fo, "_check_out_fit_ranges signature")
-    og = _guards(fo, {"target_fit_range": "Tgt", "out_fit_range": "Out"}, allow_pre=True, helpers=helpers)
+    og = _guards(_norm_guard_fn(tree, fo), {"target_fit_range": "Tgt", "out_fit_range": "Out"}, allow_pre=True, helpers=helpers)
     if len(params) == 2 and any("EBound" in g or "ERSt" in g for g in og):
         fail(fo, "_check_out_fit_ranges uses sizes it does not receive")
     f2 = find_func(tree, "check", cls="FitRange2D")
@@ -1026,9 +1458,10 @@ def translate(repo: Path) -> str:
     f3 = find_func(tree, "check", cls="FitRange3D")
     if [a.arg for a in f3.args.args] != ["self", "rows", "cols", "readout_times"]:
         fail(f3, "FitRange3D.check signature")
-    c2 = _guards(f2, {"self": "Tgt"}, allow_pre=False, helpers=helpers)
-    c3 = _guards(f3, {"self": "Tgt"}, allow_pre=False, helpers=helpers)
-    fit_tree = parse(repo, REL_FIT)
+    c2 = _guards(_norm_guard_fn(tree, f2, "FitRange2D"), {"self": "Tgt"}, allow_pre=False, helpers=helpers)
+    c3 = _guards(_norm_guard_fn(tree, f3, "FitRange3D"), {"self": "Tgt"}, allow_pre=False, helpers=helpers, is_3d=True)
+    og, c2, c3 = _canon_order(og), _canon_order(c2), _canon_order(c3)
+    fit_tree = _norm_fit_tree(parse(repo, REL_FIT))
     single, multi = _call_sites(fit_tree)
     return render(og, c2, c3, single, multi, target_first, _weights_conf(fit_tree), _fitness_desc(fit_tree))
 
